@@ -649,7 +649,7 @@ func init() {
 			}
 			spaces = append(spaces, mkSpace("frames", c14Frames(), []int{0, 1, 2, 3, 10, 20, 30}))
 			spaces = append(spaces, mkSpace("stated-error-cases", c14Errors(), []int{0, 1, 10, 20, 30}))
-			spaces = append(spaces, c14ReuseSpace())
+			spaces = append(spaces, c14ReuseSpace(), c14TreeSpace())
 			// corruptions of a sub-corpus
 			var corpus []c14Text
 			fr := c14Frames()
